@@ -64,6 +64,8 @@ let parse_action op args =
   | "tagdel", [ h ] -> ATagDel (h = "1")
   | "tagupd", [ h ] -> ATagUpd (h = "1")
   | "mergefail", _ -> AMergeFail
+  | "marknew", _ -> AMarkNew
+  | "markedit", _ -> AMarkEdit
   | "convset", _ -> AConvSet
   | "convremove", _ -> AConvRemove
   | "convadd", _ -> AConvAdd
